@@ -551,15 +551,7 @@ def late_phase_case(ctx, idx, sig, phase):
     return res
 
 
-def confirmed(fn, ctx, idx, *args):
-    """timing-dependent scenarios: an oracle failure counts only if it shows up again when the scenario is repeated"""
-    r = fn(ctx, idx, *args)
-    if r["bad"]:
-        r2 = fn(ctx, idx + 7000, *args)
-        sig2 = {s for s, _ in r2["bad"]}
-        r["unconfirmed"] = [s for s, _ in r["bad"] if s not in sig2]
-        r["bad"] = [(s, m) for s, m in r["bad"] if s in sig2]
-    return r
+confirmed = W.confirmed
 
 
 def signal_case(ctx, idx, seed):
@@ -727,7 +719,7 @@ def run(ctx):
         nsig = 10 if quick else 150
         seeds = [rng.randrange(1 << 30) for _ in range(nsig)]
         with cf.ThreadPoolExecutor(max_workers=4) as ex:
-            futs = [ex.submit(survivor_case, ctx, i, v, sg) for i, (v, sg) in enumerate(
+            futs = [ex.submit(confirmed, survivor_case, ctx, i, v, sg) for i, (v, sg) in enumerate(
                 [(v, sg) for v in ("plain", "trap", "ignore") for sg in (signal.SIGINT, signal.SIGTERM)] * (1 if quick else 4))]
             S = (signal.SIGINT, signal.SIGTERM)
             k = 100
@@ -745,7 +737,7 @@ def run(ctx):
             k += 20
             for j, ph in enumerate(("write", "shutdown") * (1 if quick else 3)):
                 futs.append(ex.submit(confirmed, late_phase_case, ctx, k + j, S[(j + ctx.seed) % 2], ph))
-            futs += [ex.submit(signal_case, ctx, i, s) for i, s in enumerate(seeds)]
+            futs += [ex.submit(confirmed, signal_case, ctx, i, s) for i, s in enumerate(seeds)]
             for f in futs:
                 results.append(f.result())
         for r in results:
